@@ -71,6 +71,16 @@ for pid in sorted(md.CLAIMED):
         else:
             c["text"] = c["text"] + "  Round-8 triage: " + text + "."
         c["technique"] = c["technique"] + "; " + tech
+    add9 = getattr(md, "ADDENDA_R9", {}).get(pid)
+    if add9:
+        ref, text, tech = add9
+        c["design_ref"] = c["design_ref"] + ", " + ref
+        if "  Not decided:" in c["text"]:
+            head, tail = c["text"].split("  Not decided:", 1)
+            c["text"] = head + "  Round 9: " + text + ".  Not decided:" + tail
+        else:
+            c["text"] = c["text"] + "  Round 9: " + text + "."
+        c["technique"] = c["technique"] + "; " + tech
     checks.append({
         "property_id": pid,
         "quick_cmd": "./check %s --tier quick" % pid,
